@@ -2,6 +2,7 @@ package main
 
 import (
 	"fmt"
+	"go/constant"
 	"go/token"
 	"go/types"
 	"os"
@@ -389,6 +390,37 @@ func rulesC12(w *World, r *Report) {
 			cSeq := codecCallSeq(w, fn(w.Cmd, d.helper), "TakeFrom")
 			okF := len(hSeq) == 2 && len(cSeq) == 2 && hSeq[0] == "Header" && cSeq[0] == "Header" && hSeq[1] == cSeq[1] && strings.HasSuffix(hSeq[1], "*")
 			r.Check(okF, "C12.R4", d.name+":framing", w.pos(H.Pos()), "handler writes "+strings.Join(hSeq, ",")+"; client reads "+strings.Join(cSeq, ","), "the handler's encoding sequence ["+strings.Join(hSeq, ",")+"] differs from the client's decoding sequence ["+strings.Join(cSeq, ",")+"] (expected Header then one element per archive)")
+			// each archive's series is decoded into an object of its own: what is stored into the result list inside the
+			// decode loop is allocated inside that loop (one variable reused for all archives leaves every entry pointing
+			// at the last one decoded)
+			if dec := fn(w.Cmd, d.helper); dec != nil {
+				bad := ""
+				n := 0
+				eachInstr(dec, func(in ssa.Instruction) {
+					st, ok := in.(*ssa.Store)
+					if !ok || !inLoopWith(st.Block()) {
+						return
+					}
+					ia, ok := st.Addr.(*ssa.IndexAddr)
+					if !ok {
+						return
+					}
+					if _, isMk := ia.X.(*ssa.MakeSlice); !isMk {
+						return
+					}
+					if _, isPtr := st.Val.Type().Underlying().(*types.Pointer); !isPtr {
+						return
+					}
+					n++
+					al, isAl := st.Val.(*ssa.Alloc)
+					if !isAl || !inLoopWith(al.Block()) {
+						bad = "the pointer stored at " + w.instrPos(st) + " is not to an object allocated in the loop (" + shortExpr(newExprCtx(w).expr(st.Val)) + ")"
+					}
+				})
+				if n > 0 {
+					r.Check(bad == "", "C12.R4", d.name+":fresh-element-per-archive", w.pos(dec.Pos()), "each entry of the decoded list points to its own object", funcName(dec)+": "+bad+": all archives of a remote read then show the series of the last archive")
+				}
+			}
 			// one element per archive on both ends, whatever was selected: neither loop has a way round its codec call
 			for _, side := range []struct {
 				f    *ssa.Function
@@ -409,6 +441,31 @@ func rulesC12(w *World, r *Report) {
 				}
 			}
 		}
+	}
+	// the server takes requests as large as net/http takes by default: a request line carries the escaped file name
+	// or pattern, and a budget set below the default turns long (legal) names into 431 answers the clients misread
+	if se := fn(w.Cmd, "ServerCommand.Execute"); se != nil {
+		def := int64(1 << 20)
+		if p := w.All["net/http"]; p != nil && p.Types != nil {
+			if c, ok := p.Types.Scope().Lookup("DefaultMaxHeaderBytes").(*types.Const); ok {
+				def, _ = constant.Int64Val(c.Val())
+			}
+		}
+		bad := ""
+		eachInstr(se, func(in ssa.Instruction) {
+			st, ok := in.(*ssa.Store)
+			if !ok {
+				return
+			}
+			if _, fld, isFld := fieldAddrOf(st.Addr); !isFld || fld != "MaxHeaderBytes" {
+				return
+			}
+			k, isK := constInt(st.Val)
+			if !isK || (k != 0 && k < def) {
+				bad = fmt.Sprintf("MaxHeaderBytes is set to %s at %s, below net/http's default of %d", newExprCtx(w).expr(st.Val), w.instrPos(st), def)
+			}
+		})
+		r.Check(bad == "", "C12.R1", "ServerCommand.Execute:header-budget", w.pos(se.Pos()), "the request-header budget is net/http's default or larger", "ServerCommand.Execute: "+bad+": a file name or pattern that is legal on the directory no longer fits a request")
 	}
 	r.Rule("C12.R6", "list framing: the items/files handlers write one name per line and the clients split on newlines only; every remote function passes errors on unwrapped", 11)
 	ruleLineFraming(w, r, "C12.R6")
